@@ -24,7 +24,8 @@ fn check_retain(st: &mut Stats, env: &BDDEnv<usize>, uni: &[usize], f: &(D, Tt),
         st.bump(&format!("filter_{}", fname));
         let case = || json!({"kind": "retain", "f": f.1.hex(), "universe": labels_json(uni), "filter": fname});
         util::budget(20_000_000, 1000);
-        let r = match guarded(|| env.retain_choice_bottom_up(Rc::clone(&f.0), filter)) {
+        let handed = hand_over(&f.0, st.evals);
+        let r = match guarded(move || env.retain_choice_bottom_up(handed, filter)) {
             Ok(r) => r,
             Err(c) => {
                 st.violate("c20.panic", format!("C20:{}:{}", fname, c.signature()), format!("retain({}, {}) did not return: {:?}", short(&f.0), fname, c), case());
